@@ -13,7 +13,7 @@ from ..world import World, inventory, contents_of, inv_brief
 ID = "C18"
 LEVEL = "exploration"
 BUDGET = {"quick": {"n": 450, "wall_s": 420}, "thorough": {"n": 20000, "wall_s": 3300}}
-RULE = ("per case: world of 1..4 duplicate families; target DIR in {outside the scanned tree, inside it, relative to cwd, "
+RULE = ("per case: world of 1..4 duplicate families; target DIR in {outside the scanned tree, inside it, relative to cwd, written through `<link to a directory>/..`, "
         "on a second simulated device (copy path)}; 0..3 pre-existing entries placed exactly at mapped locations (file, "
         "directory, symlink to a file, dangling symlink, parent path component being a file); fault plan drawn from {none, "
         "EXDEV/EIO on rename (every / n-th), ENOSPC/EIO at the n-th copy_file_range/sendfile/write, EIO on the final unlink, "
@@ -34,8 +34,13 @@ def gen_case(seed, i):
             p = "r/%s/f%dk%d" % (rng.choice(["a", "b", "a/c"]), f, k)
             w.add_file(p, {"fam": f + 1, "len": n, "flips": []})
             files.append(p)
-    variant = rng.choice(["outside", "outside", "inside", "relative", "dev2"])
-    tdir = {"outside": "T", "inside": "r/a/T", "relative": "T", "dev2": "D2/T"}[variant]
+    variant = rng.choice(["outside", "outside", "inside", "relative", "dev2", "linkdotdot"])
+    # "linkdotdot": DIR is written `lk/../T2` where lk is a symbolic link to the directory store/deep - the
+    # operating system resolves that to store/T2 (a lexical clean-up of the path would say ./T2)
+    tdir = {"outside": "T", "inside": "r/a/T", "relative": "T", "dev2": "D2/T", "linkdotdot": "store/T2"}[variant]
+    if variant == "linkdotdot":
+        w.add_dir("store/deep")
+        w.add_symlink("lk", "store/deep")
     pre = []
     for _ in range(rng.choice([0, 0, 1, 2, 3])):
         src = rng.choice(files)
@@ -139,7 +144,7 @@ def run_case(case):
         if case["variant"] == "dev2":
             # a rename across the simulated device boundary fails like the real thing
             plan.append(rule(kind="rename", act="errno:EXDEV", count="inf", prefix=rd.world + "/r"))
-        target_arg = "T" if case["variant"] == "relative" else T
+        target_arg = {"relative": "T", "linkdotdot": "lk/../T2"}.get(case["variant"], T)
         res = ops.dedupe(rd, "move", g.out, extra=case["dargs"], target=target_arg, plan=plan, env=env,
                          now_ns=T0_NS + 3600 * 10**9, seed=5, threads_env=1, cwd=rd.world)
         after = inventory(rd.world)
